@@ -5,8 +5,8 @@
 import BumpProof.Lemmas.MemSlow
 import BumpProof.Lemmas.MemEx
 
-namespace Arena.Ex
-open Arena Rs
+namespace Arena.Mem.Ex
+open Arena Arena.Mem Rs
 
 
 def L8 : Layout := { size := 8, align := 8 }
@@ -104,4 +104,4 @@ theorem stDown_liveOK : LiveOK cfgDown stDown := by
     exact ⟨0, 0, chunkDown, rfl, Nat.le_refl _, rfl, by unfold InContent; decide,
       fun _ => by unfold OnAllocatedSide; decide⟩
 
-end Arena.Ex
+end Arena.Mem.Ex
